@@ -28,7 +28,7 @@ FMT_BY_CMD = {
 def shards(tier, seed):
     from vmon.spec import cdb as S
 
-    out = [{"id": c.name, "cmd": c.name, "reps": 2 if tier == "quick" else 40} for c in S.COMMANDS.values() if c.facade]
+    out = [{"id": c.name, "cmd": c.name, "reps": 2 if tier == "quick" else 100} for c in S.COMMANDS.values() if c.facade]
     for i in range(4 if tier == "quick" else 16):
         out.append({"id": "session%d" % i, "cmd": None, "sessions": 30 if tier == "quick" else 400})
     out.append({"id": "attached", "cmd": None, "attached": True, "reps": 1 if tier == "quick" else 12})
